@@ -1,4 +1,4 @@
-CONSTANTS DELIM = 44  MaxArr = 3  MaxStr = 2
+CONSTANTS DELIM = 44  MaxArr = 3  MaxStr = 2  Alphabet = {44, 34, 13, 10, 32, 97}
 SPECIFICATION Spec
 INVARIANT Inv
 CHECK_DEADLOCK FALSE
